@@ -843,7 +843,7 @@ class WalkMapper(RecursiveMapper):
             return
 
         for _bits, coeff in expr.data.items():
-            self.rec(coeff)
+            self.rec(coeff, *args, **kwargs)
 
         self.post_visit(expr, *args, **kwargs)
 
